@@ -91,13 +91,13 @@ def c12(tier, seed):
 
 
 def c15(tier, seed):
-    return store_stages(tier, "obs,path,flat,cmp", "CompsC15",
+    return store_stages(tier, "obs,path,flat,cmp,up", "CompsC15",
                         ["CtxOK", "LinksTrue", "FlatExact", "CompareOK"], [],
                         [("DetachKeepsCtx", ["LinksTrue"]), ("DelAtNoRenumber", ["CtxOK"])], only_devs=None)
 
 
 def c10(tier, seed):
-    st = store_stages(tier, "obs,at,path", "CompsC10", ["NoSharing"], ["SourceUntouchedProp"],
+    st = store_stages(tier, "obs,at,path,up", "CompsC10", ["NoSharing"], ["SourceUntouchedProp"],
                       [("EmbedReparentsSource", ["SourceUntouchedProp"])], only_devs=None, mc_universe="merge",
                       gen_core=False, merge_depth=(3, 3))
     q = tier == "quick"
